@@ -185,6 +185,10 @@ def run(ctx):
             check_prog(ctx, r, p, n)
     fam.each_bin(per_bin)
     ctx.cov["programs"] = len(fam.progs)
+    # a slice of the corpus built in the release profile (no debug assertions / overflow checks): what gets deployed
+    rel = ctx.family("release")
+    rel.each_bin(lambda b, progs, r: [check_prog(ctx, r, p, max(2, n // 3)) for p in progs])
+    ctx.cov["release_profile_programs"] = len(rel.progs)
     # handlers whose arguments are user types named like framework items (Empty, Response, Addr, ...)
     sh = ctx.family("shadow")
 
